@@ -293,7 +293,7 @@ def public_inplace_tree(f1, f2, f3, direct, nb1, nb2, nb3, fail_pos, fail_kind):
 
 def obligations(tier, seed):
     n = 4 if tier == 'quick' else 5
-    t = 280 if tier == 'quick' else 2400
+    t = 240 if tier == 'quick' else 2400
     sel2_shards = [['len(f1) == %d' % l1, 'len(f3) <= %d' % n, 'direct == %s' % dr] for l1 in range(1, n + 1) for dr in (True, False)]
     sel_shards = [['len(f1) == %d' % l1, 'len(f2) == %d' % l2, 'len(f3) <= 4', 'direct == False']
                   for l1 in range(1, 5) for l2 in range(1, 5)]
